@@ -312,7 +312,7 @@ def U_E_games():
     1-3 successors from {T (wins with tiny probability t), L (lose), V (wins surely)}, as state 0 or behind an entry
     state, numbered ascending and descending (the sweep order decides whether a tiny value is seen before the loop stops)."""
     games = []
-    for t in (2e-7, 4e-7, 9e-7, 3e-6):
+    for t in (5e-10, 2e-7, 4e-7, 9e-7, 3e-6):
         for d in (1, 2, 3):
             for tg in itertools.product("TLV", repeat=d):
                 for kind in (PR, P1):
